@@ -427,6 +427,12 @@ def work_labels(cases, seed, res):
                         lambda: ctg.ncon(arrays, ninds,
                                          cache_expression=False),
                         lambda: w)
+                # the labels of each tensor given as an integer ARRAY
+                npinds = [np.array(t, dtype="int64") for t in ninds]
+                compare(res, "ncon-numpy-labels", {"call": ninds},
+                        lambda: ctg.ncon(arrays, npinds,
+                                         cache_expression=False),
+                        lambda: w)
     res.sample({"form": "labels", "inputs": inputs, "output": output}, cap=1)
 
 
